@@ -177,6 +177,7 @@ TwoHosts == <<"h1.test", "h2.test">>
 ThreeHosts == <<"h1.test", "h2.test", "h3.test">>
 AllEntries == {"client", "hcPlain", "hcTLS", "lbMixed", "lbTLS"}
 DirectEntries == {"client", "hcPlain", "hcTLS"}
+ClientOnly == {"client"}
 DirectOnly == {"direct"}
 AllVias == {"direct", "copy-built", "copy-built-touched", "recv", "copy-recv", "copy-recv-rewrite", "copy-recv-rewrite-touched"}
 DerivedVias == AllVias \ {"direct"}
